@@ -13,7 +13,7 @@ macro_rules! with_key_type {
                 $body
             }
             $crate::refmodel::record::KeyType::Libsecp => {
-                type $K = secp256k1::SecretKey;
+                type $K = $crate::keys::LibsecpKey;
                 $body
             }
             $crate::refmodel::record::KeyType::Ed => {
